@@ -81,7 +81,9 @@ ASSUMPTIONS = ['relative precedence of & versus + - * / is not fixed by the stat
 SPEC = {'=': (1, 'left'), '<>': (1, 'left'), '<': (1, 'left'), '>': (1, 'left'), '<=': (1, 'left'), '>=': (1, 'left'),
         '+': (2, 'left'), '-': (2, 'left'), '*': (3, 'left'), '/': (3, 'left'), '&': (4, 'left')}
 PRIMES = [2, 3, 5, 7, 11, 13, 17, 19, 23, 29, 31, 37, 41, 43, 47]
-VARS = {'va': 53, 'vb': 59, 'v_c': 61, 'rate_x': 67}
+VARS = {'va': 53, 'vb': 59, 'v_c': 61, 'rate_x': 67, 'ovr': 41}
+# `ovr` is registered with OVR_REGISTERED and answered with 41 by the host's callVariable listener: the listener's answer is the value
+OVR_REGISTERED = 999
 CELLS = {'A1': 71, 'B2': 73, '$C$3': 79, 'D$4': 83, '$E5': 89}
 
 # variables bound to error VALUES (leaves of C04's own trees only): with two of them under one operator the tree's value is
@@ -120,7 +122,7 @@ def real_parser():
         import hotxlfp
         p = hotxlfp.Parser()
         for k, v in VARS.items():
-            p.set_variable(k, v)
+            p.set_variable(k, v if k != 'ovr' else OVR_REGISTERED)
         for k, v in errvals().items():
             p.set_variable(k, v)
         for k, v in list(DVARS.items()) + list(AVARS.items()):
@@ -131,6 +133,8 @@ def real_parser():
             p.parse('2*3+1')
             return x
         p.set_function('ID', ident)
+        # the host's own ABS (the identity) stands in front of the shipped one: a call node is evaluated by what the host registered
+        p.set_function('ABS', ident)
 
         def on_cell(cell, setter):
             for lab, v in CELLS.items():
@@ -140,6 +144,8 @@ def real_parser():
 
         def on_var(name, setter):
             p.parse('1<2')
+            if name == 'ovr':
+                setter(VARS['ovr'])
         p.on('callVariable', on_var)
         _rp[0] = p
     return _rp[0]
@@ -152,7 +158,7 @@ def _allvars():
     return d
 
 
-ENV = fx.env_wire(variables=_allvars(), fns={'ID': '(first)'}, cells={k.upper(): v for k, v in CELLS.items()})
+ENV = fx.env_wire(variables=_allvars(), fns={'ID': '(first)', 'ABS': '(first)'}, cells={k.upper(): v for k, v in CELLS.items()})
 
 
 # ------------------------------------------------------------------ generation
@@ -197,7 +203,7 @@ def gen_num(rng, depth, ints_only=False):
     if r < 0.12:
         return ('neg', gen_num(rng, depth - 1, ints_only))
     if r < 0.20:
-        return ('call', 'ID', 'flat', [gen_num(rng, depth - 1, ints_only)], [])
+        return ('call', 'ID' if rng.random() < 0.7 else 'ABS', 'flat', [gen_num(rng, depth - 1, ints_only)], [])
     if r < 0.27 and not ints_only:
         return ('cmp', gen_cmp(rng, depth - 1))      # parenthesised comparison used as a number
 
